@@ -557,6 +557,15 @@ func batcherGen(r *Rng, tier string) Case {
 		mx = int64(Pick(r, []int{60, 120})) * 1e6
 	}
 	mem := Pick(r, []int64{1, 64, 256, 1024, 100 << 20, 100 << 20})
+	// memory-boundary mode: equal-sized messages and a soft limit that is an exact multiple of the
+	// size, so that ticks see totalMemory == limit and totalMemory == limit after a pop
+	memB := !kinesis && r.Chance(12)
+	if memB {
+		if strings.HasPrefix(kind, "generic") {
+			kind = "generic:500"
+		}
+		mem = 16 * int64(Pick(r, []int{2, 3, 4, 6, 9}))
+	}
 	lines = append(lines, fmt.Sprintf("batcher cfg %s %d %s %d %d %d", kind, workers, routing, upd, mx, mem))
 	pmode := r.Intn(4) // none, table, txn, bucket
 	if strings.HasPrefix(kind, "kinesis:walstart") {
@@ -587,7 +596,7 @@ func batcherGen(r *Rng, tier string) Case {
 	ntx := r.Range(1, 10)
 	huge := 0
 	tick := func() {
-		if r.Chance(12) {
+		if r.Chance(12) || (memB && r.Chance(35)) {
 			s := 0
 			if smallAges {
 				s = Pick(r, []int{0, 0, 25, 70, 130})
@@ -613,6 +622,9 @@ func batcherGen(r *Rng, tier string) Case {
 				id++
 				lsn += r.Range(0, 20)
 				size := r.Range(8, 60)
+				if memB {
+					size = Pick(r, []int{16, 16, 16, 32})
+				}
 				if kinesis && huge < 12 && r.Chance(12) {
 					huge++
 					size = Pick(r, []int{1<<20 - 1, 1 << 20, 1<<20 + 1, 600 << 10, 1<<20 - 30})
